@@ -864,7 +864,18 @@ func (ctx *RenderContext) EvaluateExpression(node Node) (interface{}, error) {
 		// We can't use pooling with defer here because the map is returned directly
 		result := make(map[string]interface{}, len(n.items))
 
-		for k, v := range n.items {
+		// Evaluate the pairs in the order in which they are written, so that
+		// side effects happen in source order and the last of several equal keys wins
+		keys := n.keys
+		if keys == nil {
+			for k := range n.items {
+				keys = append(keys, k)
+			}
+		}
+
+		for _, k := range keys {
+			v := n.items[k]
+
 			// Evaluate the key
 			keyVal, err := ctx.EvaluateExpression(k)
 			if err != nil {
